@@ -92,38 +92,10 @@ func ruleC08R1(c *Ctx) {
 		}
 		return false
 	}
-	n := 0
-	for _, fn := range c.FuncsIn(pkgIndex) {
-		eachInstr(fn, func(in ssa.Instruction) {
-			var base, idx ssa.Value
-			switch x := in.(type) {
-			case *ssa.IndexAddr:
-				base, idx = x.X, x.Index
-			case *ssa.Index:
-				base, idx = x.X, x.Index
-			default:
-				return
-			}
-			k, isConst := constInt(idx)
-			if !isConst {
-				return
-			}
-			if _, isSlice := base.Type().Underlying().(*types.Slice); !isSlice {
-				return
-			}
-			if al, ok := base.(*ssa.Slice); ok {
-				if _, isAlloc := al.X.(*ssa.Alloc); isAlloc {
-					return // slice of a local array (varargs)
-				}
-			}
-			path := accessPath(base)
-			n++
-			key := fmt.Sprintf("constant index #%d [%d] in %s", n, k, FuncName(fn))
-			pos := c.Pos(in.Pos())
-			if path == "" {
-				// e.g. the direct result of a call: look for a length test on the very same value
-				path = "val:" + base.Name()
-			}
+	// lowerAt: the lower bound on len(path) that the dominating length tests of fn establish at
+	// instruction in (no possibly-shrinking operation between the test's edge and in).
+	var lowerAt func(fn *ssa.Function, in ssa.Instruction, path string, base ssa.Value) int64
+	lowerAt = func(fn *ssa.Function, in ssa.Instruction, path string, base ssa.Value) int64 {
 			var lower int64
 			var excl []int64
 			eachInstr(fn, func(g ssa.Instruction) {
@@ -199,7 +171,49 @@ func ruleC08R1(c *Ctx) {
 					}
 				}
 			}
-			c.Check(lower > k, key, pos, fmt.Sprintf("dominating length facts give len >= %d", lower),
+		return lower
+	}
+	n := 0
+	for _, fn := range c.FuncsIn(pkgIndex) {
+		eachInstr(fn, func(in ssa.Instruction) {
+			var base, idx ssa.Value
+			switch x := in.(type) {
+			case *ssa.IndexAddr:
+				base, idx = x.X, x.Index
+			case *ssa.Index:
+				base, idx = x.X, x.Index
+			default:
+				return
+			}
+			k, isConst := constInt(idx)
+			if !isConst {
+				return
+			}
+			if _, isSlice := base.Type().Underlying().(*types.Slice); !isSlice {
+				return
+			}
+			if al, ok := base.(*ssa.Slice); ok {
+				if _, isAlloc := al.X.(*ssa.Alloc); isAlloc {
+					return // slice of a local array (varargs)
+				}
+			}
+			path := accessPath(base)
+			n++
+			key := fmt.Sprintf("constant index #%d [%d] in %s", n, k, FuncName(fn))
+			pos := c.Pos(in.Pos())
+			if path == "" {
+				// e.g. the direct result of a call: look for a length test on the very same value
+				path = "val:" + base.Name()
+			}
+			lower := lowerAt(fn, in, path, base)
+			via := ""
+			if lower <= k {
+				if lo, ok := callerLower(c, fn, in, path, lowerAt, noShrink); ok && lo > lower {
+					lower = lo
+					via = " (established at every call site of the enclosing helper)"
+				}
+			}
+			c.Check(lower > k, key, pos, fmt.Sprintf("dominating length facts give len >= %d%s", lower, via),
 				fmt.Sprintf("no dominating test of the slice's length implies len > %d (facts give len >= %d): an empty or too short list makes this panic (index out of range)", k, lower))
 		})
 	}
@@ -640,4 +654,101 @@ func ruleC08R6(c *Ctx) {
 	if n == 0 {
 		c.Undecided("heap users in package index", "-", "no method modifying a heap element in place found (rule table stale)")
 	}
+}
+
+// callerLower: for an access in an unexported helper whose path is rooted at a parameter,
+// the bound that every static call site of the helper establishes for the corresponding
+// argument path, provided nothing in the helper can shrink the list before the access.
+func callerLower(c *Ctx, fn *ssa.Function, in ssa.Instruction, path string, lowerAt func(*ssa.Function, ssa.Instruction, string, ssa.Value) int64, noShrink func(*ssa.Function) bool) (int64, bool) {
+	if fn.Object() == nil || fn.Object().Exported() || fn.Parent() != nil {
+		return 0, false
+	}
+	stars := len(path) - len(strings.TrimLeft(path, "*"))
+	rest := path[stars:]
+	if !strings.HasPrefix(rest, "p:") {
+		return 0, false
+	}
+	var param *ssa.Parameter
+	pidx := -1
+	for i, p := range fn.Params {
+		pp := "p:" + p.Name()
+		if rest == pp || strings.HasPrefix(rest, pp+".") || strings.HasPrefix(rest, pp+"[") {
+			if param == nil || len(p.Name()) > len(param.Name()) {
+				param, pidx = p, i
+			}
+		}
+	}
+	if param == nil {
+		return 0, false
+	}
+	// a possibly-shrinking operation in the helper before the access
+	shrunk := false
+	eachInstr(fn, func(kk ssa.Instruction) {
+		isKill := false
+		switch y := kk.(type) {
+		case *ssa.Store:
+			if ap := accessPath(y.Addr); ap != "" && "*"+ap == path {
+				isKill = true
+			}
+		case *ssa.Call:
+			if noShrink(y.Common().StaticCallee()) || builtinName(y.Common()) != "" {
+				break
+			}
+			for _, arg := range y.Common().Args {
+				ap := accessPath(stripIface(arg))
+				if ap != "" && strings.HasPrefix(strings.TrimLeft(path, "*"), strings.TrimLeft(ap, "*")+".") {
+					isKill = true
+				}
+			}
+		}
+		if isKill && (kk.Block() == in.Block() && instrIndex(kk) < instrIndex(in) || kk.Block() != in.Block() && blockReach(fn)[kk.Block().Index][in.Block().Index]) {
+			shrunk = true
+		}
+	})
+	if shrunk {
+		return 0, false
+	}
+	// the helper's address must not be taken (all callers are the static call sites)
+	sites := 0
+	best := int64(-1)
+	okAll := true
+	for _, g := range c.SrcFuncs() {
+		eachInstr(g, func(x ssa.Instruction) {
+			for _, op := range x.Operands(nil) {
+				if *op == ssa.Value(fn) {
+					cc := callOf(x)
+					if cc == nil || cc.Value != ssa.Value(fn) {
+						okAll = false
+					}
+				}
+			}
+			cc := callOf(x)
+			if cc == nil || cc.StaticCallee() != fn {
+				return
+			}
+			if _, isCall := x.(*ssa.Call); !isCall {
+				okAll = false // go / defer: runs at another time than the guard
+				return
+			}
+			sites++
+			if pidx >= len(cc.Args) {
+				okAll = false
+				return
+			}
+			ap := accessPath(cc.Args[pidx])
+			if ap == "" {
+				okAll = false
+				return
+			}
+			tpath := strings.Repeat("*", stars) + ap + rest[len("p:"+param.Name()):]
+			lo := lowerAt(g, x, tpath, nil)
+			if best < 0 || lo < best {
+				best = lo
+			}
+		})
+	}
+	if !okAll || sites == 0 || best < 0 {
+		return 0, false
+	}
+	return best, true
 }
